@@ -97,6 +97,20 @@ func installStageHook() {
 	})
 }
 
+// safeLogOpen keeps log.rollingFile from calling log.Fatal (which would kill the harness)
+// when a logger of an abandoned instance writes after its sandbox was removed.
+func safeLogOpen(path string, flag int, perm os.FileMode) (*os.File, error) {
+	f, err := os.OpenFile(path, flag, perm)
+	if err == nil {
+		return f, nil
+	}
+	os.MkdirAll(filepath.Dir(path), 0o755)
+	if f, err = os.OpenFile(path, flag, perm); err == nil {
+		return f, nil
+	}
+	return os.OpenFile(os.DevNull, os.O_WRONLY, 0)
+}
+
 type quietLogger struct{}
 
 func (quietLogger) Debug(...interface{}) {}
@@ -141,7 +155,7 @@ func (r *stageRig) newInstance(dir string) {
 	os.MkdirAll(r.root, 0o755)
 	os.MkdirAll(r.final, 0o755)
 	os.MkdirAll(r.logdir, 0o755)
-	r.logger = stslog.NewFileIO(r.logdir, nil, nil, true)
+	r.logger = stslog.NewFileIO(r.logdir, nil, safeLogOpen, true)
 	activeRig = r
 	r.st = stage.New("verif", r.root, r.final, r.logger, nil, nil)
 }
